@@ -15,7 +15,7 @@ from . import tyspec as T
 
 
 def base_programs(thorough, seed):
-    progs = T.typing_programs() + Fam.template_programs() + Fam.capture_programs() + Fam.lambda_programs() + Fam.order_programs(seed)[:6]
+    progs = T.typing_programs(ill=True) + Fam.template_programs() + Fam.capture_programs() + Fam.lambda_programs() + Fam.order_programs(seed)[:6]
     ops = Fam.operator_programs()
     progs += ops if thorough else ops[seed % 7::7]
     progs += Fam.nestings(1)[::(1 if thorough else 5)]
